@@ -522,6 +522,27 @@ func TestProtocolLevel(t *testing.T) {
 			rec.Report(t, "proto", checkProto(ProtoCase{"smpp", n, vk.Hex([]byte("Hello"))}))
 		}
 		rec.Exhaustive("all 256 CMPP coding numbers and SMPP numbers -1..300 with a fixed text")
+		// the selectors GetCMPPCodec / GetSMPPCodec ("when there is an unsupported coding, UCS2 is used as the
+		// default"): never nil; a supported number selects the codec NewXCodec selects, any other number UCS-2
+		for _, text := range []string{"Hello", "中文 and ascii"} {
+			want16 := ref.UTF16BE(text)
+			for n := -1; n <= 300; n++ {
+				rec.Eval()
+				var got, viaNew dc.Codec
+				name := ""
+				if n >= 0 && n <= 255 {
+					got, viaNew, name = dc.GetCMPPCodec(dc.CMPPDataCoding(n), text), dc.NewCMPPCodec(dc.CMPPDataCoding(n), text), "GetCMPPCodec"
+					if v := selectorViolation(name, n, text, got, viaNew, want16); v != nil {
+						rec.Report(t, "proto", v)
+					}
+				}
+				got, viaNew, name = dc.GetSMPPCodec(dc.SMPPDataCoding(n), text), dc.NewSMPPCodec(dc.SMPPDataCoding(n), text), "GetSMPPCodec"
+				if v := selectorViolation(name, n, text, got, viaNew, want16); v != nil {
+					rec.Report(t, "proto", v)
+				}
+			}
+		}
+		rec.Exhaustive("GetCMPPCodec / GetSMPPCodec for every coding number -1..300")
 	}
 }
 
@@ -576,6 +597,31 @@ func checkProtoEncoder(c ProtoCase, s string) *vk.Violation {
 	}
 	if err != nil || out != s {
 		return vk.Violf(fmt.Sprintf("%s/encoder-coding-%d-not-inverted", c.Proto, act), c, "%s: the protocol-level encoder reported coding %d for %q (requested %d), the protocol-level decoder for that coding returns %q, %v", c.Proto, act, s, c.Coding, out, err)
+	}
+	return nil
+}
+
+// selectorViolation: the Get*Codec selectors never return nil; for a number NewXCodec knows they select
+// the same codec (same encoding of the text, same refusal), for every other number UCS-2.
+func selectorViolation(name string, n int, text string, got, viaNew dc.Codec, want16 []byte) *vk.Violation {
+	c := ProtoCase{name, n, vk.Hex([]byte(text))}
+	if got == nil {
+		return vk.Violf(name+"/nil-codec", c, "%s(%d, %q) returned a nil codec", name, n, text)
+	}
+	var ge []byte
+	var gerr error
+	if pn := vk.Guarded("proto", name+"/hang", func() any { return c }, func() { ge, gerr = got.Encode() }); pn != "" {
+		return vk.Violf(name+"/panic", c, "%s(%d).Encode panicked\n%s", name, n, pn)
+	}
+	if viaNew != nil {
+		we, werr := viaNew.Encode()
+		if (gerr == nil) != (werr == nil) || (gerr == nil && string(ge) != string(we)) {
+			return vk.Violf(name+"/differs-from-New", c, "%s(%d, %q).Encode() = %x, %v; the codec NewXCodec selects for that number gives %x, %v", name, n, text, ge, gerr, we, werr)
+		}
+		return nil
+	}
+	if gerr != nil || string(ge) != string(want16) {
+		return vk.Violf(name+"/unsupported-number-not-UCS2", c, "%s(%d, %q): the number is not supported, the documented default is UCS-2, but Encode() = %x, %v (UTF-16BE is %x)", name, n, text, ge, gerr, want16)
 	}
 	return nil
 }
